@@ -350,6 +350,41 @@ def oracle(ctx):
     ctx.cov['fault_kind_histogram'] = hist
     ctx.counters['nontrivial'] = len(nt)
     ctx.sample({'template': cases[0][0]['src'], 'expected': cases[0][1]})
+    # what failed to compile earlier in this process must not matter: after a template that is rejected deep inside a region where
+    # interpolation is switched off (the program builder is left in the middle of its element stack), an invalid ${...} in a later
+    # template is still rejected, at its place, and a valid one is still evaluated
+    from chameleon import PageTemplate
+    from chameleon.exc import TemplateError
+    FIRST = ['<div meta:interpolation="false"><p><b tal:content="x" tal:replace="y">t</b></p></div>',
+             '<div meta:interpolation="off"><ul><li metal:fill-slot="s">x</li></ul></div>',
+             '<div meta:interpolation="false"><i meta:interpolation="true"><b i18n:name="n">t</b></i></div>',
+             '<div meta:interpolation="true"><p meta:interpolation="false"><b tal:switch="a" tal:case="b">t</b></p></div>']
+    PROBES = [('<html>\n  <p>caf\u00e9 ${1 +}</p>\n</html>', '1 +'), ('<p><!-- ${a b} --></p>', 'a b'), ('<p><![CDATA[${x ===}]]></p>', 'x ==='),
+              ('<p title="${1 +}">t</p>', '1 +')]
+    for first in FIRST:
+        try:
+            PageTemplate(first)
+        except Exception:
+            pass
+        for src, tok in PROBES:
+            ctx.count('evaluations')
+            try:
+                PageTemplate(src)
+                got = 'compiled'
+            except TemplateError as e:
+                got = (str(getattr(e, 'token', None)), getattr(e, 'offset', None))
+            except Exception as e:
+                got = type(e).__name__
+            if got != (tok, src.index(tok)):
+                ctx.violation('an invalid ${...} is not rejected (or not at its place) after an earlier template of the process was rejected',
+                              {'src': src, 'compiled_before': first}, expected=(tok, src.index(tok)), actual=got)
+        try:
+            got = PageTemplate('<p>${a + b}<!-- ${a} --></p>')(a=1, b=2)
+        except Exception as e:
+            got = type(e).__name__
+        if got != '<p>3<!-- 1 --></p>':
+            ctx.violation('a valid template renders differently after an earlier template of the process was rejected',
+                          {'src': '<p>${a + b}<!-- ${a} --></p>', 'compiled_before': first}, expected='<p>3<!-- 1 --></p>', actual=got)
 
 
 def judge_disagreement(ctx, d):
